@@ -151,12 +151,16 @@ static inline bool api_must_fail(const ApiCase &a, std::string &why) {
   if (!passwd_safe(a.setting)) { why = "bad-char"; return true; }
   if (classify_tag(a.setting) == M_NONE) { why = "unknown-tag"; return true; }
   if (a.entry == E_CRYPT_RN && (a.size < 0 || (size_t)a.size < sizeof(struct crypt_data))) { why = "size-too-small"; return true; }
+  std::string g = method_must_fail(a.setting);
+  if (!g.empty()) { why = "malformed-parameters: " + g; return true; }
   return false;
 }
 // independent "passes argument validation" predicate (C09 L1)
 static inline bool api_passes_validation(const ApiCase &a) {
-  std::string w;
-  return !api_must_fail(a, w);
+  if (a.entry > E_CRYPT_RA) return true;
+  if (a.phrase_null || a.setting_null || a.phrase.size() >= 512 || !passwd_safe(a.setting) || classify_tag(a.setting) == M_NONE) return false;
+  if (a.entry == E_CRYPT_RN && (a.size < 0 || (size_t)a.size < sizeof(struct crypt_data))) return false;
+  return true;
 }
 
 // Execute the call.  `fill` overrides a.fill so that callers can repeat the same
